@@ -268,6 +268,8 @@ def layers(tier):
                     'same candidate sets x n_jobs in {2,3,len+1,-1} x every task execution order (k! for '
                     'k <= 4 tasks, else within 2 adjacent transpositions) under the owned scheduler with '
                     'pickled task boundaries', min_nontrivial=1000, chunksize=1))
+    from checks.configx import matcher_config_layer
+    Ls.append(matcher_config_layer(['C05'], quick))
     return Ls
 
 
